@@ -1,8 +1,12 @@
 """C20 — calibration import reproduces the backend's values for the requested qubits.
 
 Lean: QG.Props.C20 (per_qubit_spec, per_qubit_at, table_shape, table_spec, table_spec_no_self_pair,
-      table_single_label_zero, error_order, rejects_unsupported_type, rejects_no_native_gate, load_ok_iff, ...)
-      about QG.Model.Calibration.load, the hand-written model of DeviceParameters.load_from_backend.
+      table_single_label_zero, calib_eq_some_iff / _none_iff / calib_single_gate, error_order, rejects_unsupported_type,
+      rejects_no_native_gate, load_ok_iff, ...) about QG.Model.Calibration.load, the hand-written model of
+      DeviceParameters.load_from_backend AS REPAIRED by notes/fixes/D25-mixed-two-qubit-basis.diff (every supported
+      two-qubit gate of the basis is imported; an unsupported device is rejected before any calibration value is read).
+      On the unrepaired code the correspondence disagrees and the oracle produces the failing inputs (FakeCairoV2 with a
+      layout reaching an ecr-calibrated pair; FakeKingston with a layout naming qubit 146).
 Tie:  exact differential correspondence.  The harness reads the raw props_*.json / conf_*.json of a backend with plain
       `json` (never through BackendProperties), builds the model's backend record from them, sends it to the model
       driver and compares with the real `load_from_backend` (tokens = repr(float)), for
@@ -11,7 +15,10 @@ Tie:  exact differential correspondence.  The harness reads the raw props_*.json
         * seeded synthetic devices written to a scratch directory and loaded as FakeBackendV2 subclasses / BackendV2
           objects (designed edge corpus first: self-coupled pair, mixed cx/ecr, missing dt, missing calibration ...),
         * a malformed stream: non-backend objects, bases without ecr/cx, labels out of range, empty layouts.
-Oracle (independent of the model): the statement of C20 evaluated on the returned object against the raw JSON values.
+Oracle (independent of the model): the statement of C20 evaluated on the returned object against the raw JSON values:
+      per-qubit lists, dt, table shape; every ordered pair below the largest label that the JSON calibrates with a supported
+      gate of the basis (cx or ecr) holds that gate's gate_error / gate_length (either gate's if both calibrate it), zero
+      elsewhere; unsupported type / no ecr, cx in the basis => ValueError for EVERY layout.
 """
 import inspect, json, os, random, shutil, tempfile, time, types
 import numpy as np
@@ -444,6 +451,8 @@ def layouts_for(rng, n, rec, budget):
     fam.append(("beyond_device", [0, n + rng.randint(0, 3)]))
     holes = [q for q in range(n) if any(q not in rec[m] for m in FIVE)]
     out = fam[:budget]
+    if not any(g in ("ecr", "cx") for g in rec["basis"]) and budget < len(fam):
+        out.append(fam[-1])                                       # unsupported device: the rejection must not depend on the layout
     if holes and len(holes) < n:                                  # a device with a hole in its calibration (FakeKingston)
         out.append(("incomplete_qubit", [holes[0]]))
         out.append(("around_incomplete_qubit", [q for q in rng.sample(range(n), min(n, 5)) if q not in holes] or [0]))
@@ -627,7 +636,7 @@ def _run(ctx, lean, rng, scr):
     cov["bundled_backends"] = len(classes)
     cov["bundled_outcome_summary"] = {
         "load": sum(1 for d in devices.values() if d["status"].startswith("loads")),
-        "rejected_no_ecr_cx": sum(1 for d in devices.values() if d["status"].startswith("rejected")),
+        "rejected_no_ecr_cx": sum(1 for d in devices.values() if d["status"].startswith("unsupported")),
         "outside_no_x_calibration": sum(1 for d in devices.values() if d["status"].startswith("outside")),
         "mixed_cx_ecr": [n for n, d in devices.items() if len(set(d["native_in_basis"])) > 1]}
     cov["devices"] = devices
